@@ -305,7 +305,7 @@ def run_dsop(w, s):
         if not isinstance(ev, da.DimArray):
             ev = da.DimArray(ev)
         # single precision: the order of floating-point operations may differ between the two code paths
-        rtol = 1e-5 if (rv.values.dtype == np.float32 or ev.values.dtype == np.float32) else 1e-9
+        rtol = 1e-5 if (rv.values.dtype == np.float32 or ev.values.dtype == np.float32 or m.vars[k]["values"].dtype == np.float32) else 1e-9
         d = V.diff_arrays(rv, ev, rtol=rtol, attrs=False, dtype="exact" if rv.values.dtype.kind != "O" and ev.values.dtype.kind != "O" else "kind", kind=False)
         if d:
             oracle = "ds_op_unchanged" if k in lacking else "ds_op_var"
